@@ -297,9 +297,12 @@ fn make_plan(rng: &mut Rng, seed: u64) -> Plan {
         // (A crash inside the switch restarts the client with the records in the store only.)
         let h1 = fork_at + 3;
         let list: Vec<(usize, bool, u64)> = (0..3usize).map(|i| (i, true, fork_at - 2)).collect();
-        let ops = vec![Op::Init, Op::Prove { on_fork: false, height: h1 }, Op::SetScripts { cmd: 0, list },
+        let mut ops = vec![Op::Init, Op::Prove { on_fork: false, height: h1 }, Op::SetScripts { cmd: 0, list },
             Op::Filters { batch: 2 }, Op::Filters { batch: 8 }, Op::Prove { on_fork: true, height: h1 + 7 },
             Op::Download, Op::Filters { batch: 8 }, Op::Download, Op::Filters { batch: 8 }, Op::Download];
+        // every other targeted history: the blocks above the fork point are downloaded and indexed BEFORE the switch, so that the
+        // rollback has real index entries to undo (and the new branch puts other blocks at the same heights)
+        if seed % 6 == 4 { ops.insert(5, Op::Download); }
         // last-N 4: the switch is 7 blocks ahead (sampled regime, the request starts at the stored tip, the honest answer carries a
         // reorg section) and 3 blocks deep (the fork point is remembered): the one path on which commit_prove_state rolls back
         return Plan { seed, len, fork_at, ops, last_n: 4 };
@@ -356,6 +359,25 @@ fn judge(w: &mut World, starts: &[(usize, bool, u64)]) -> Snapshot {
         let phantom: Vec<_> = got.iter().filter(|c| c.0 > from && !live_any.contains(c)).map(|c| (c.0, c.1, c.2)).collect();
         if !missing.is_empty() || !phantom.is_empty() {
             problems.push(format!("[C08-activity-lost-after-crash] script {} ({}) is reported as filtered up to {} but its index misses {:?} and has extra {:?}", sid + 1, if *is_lock { "lock" } else { "type" }, number, missing, phantom));
+        }
+    }
+    // C16: whatever get_transaction reports as committed is committed by the block it names
+    let mut hashes: Vec<&packed::Byte32> = w.main.all.keys().chain(w.fork.all.keys()).collect();
+    hashes.sort_by(|a, b| a.as_slice().cmp(b.as_slice()));
+    hashes.dedup();
+    for h in hashes {
+        match catch(|| net.storage.get_transaction_with_header(h)) {
+            None => { problems.push(format!("[C16-get-transaction-aborts] get_transaction of a stored transaction aborts: {}", super::last_panic())); break; }
+            Some(None) => {}
+            Some(Some((tx, header))) => {
+                let hh = header.calc_header_hash();
+                let holds = |bc: &BodyChain| bc.chain.number_of(&hh).map(|n| bc.chain.bodies[n as usize].iter().any(|x| x.as_slice() == tx.as_slice())).unwrap_or(false);
+                if !holds(&w.main) && !holds(&w.fork) {
+                    let n: u64 = header.raw().number().unpack();
+                    problems.push(format!("[C16-transaction-paired-with-wrong-block] get_transaction reports a transaction as committed in block #{} ({:#x}), which does not contain it: the transaction was indexed from the block of the abandoned branch at that height", n, hh));
+                    break;
+                }
+            }
         }
     }
     let pending = matched_records(&net).len();
